@@ -30,7 +30,7 @@ func init() {
 		Roles: map[string]Role{
 			"main":       {N: func(t string) int { return tierN(t, 64, 4000) }, Case: c14Case},
 			"concurrent": {N: func(t string) int { return tierN(t, 48, 1500) }, Case: c14Concurrent},
-			"bigbatch":   {N: func(t string) int { return tierN(t, 3, 12) }, Case: c14BigBatch},
+			"bigbatch":   {N: func(t string) int { return tierN(t, 4, 16) }, Case: c14BigBatch},
 		},
 	})
 	register(&Prop{
@@ -123,7 +123,7 @@ func c14Case(tier string, seed int64, idx int, scratch string) rt.CaseResult {
 	p := seqrun.Profile{
 		Steps: tierN(tier, 80, 200), Keys: txKeys, Lens: []int{8, 8, 3000, 40000}, MaxOpen: 3, TxBias: 55,
 		TagPrefix: fmt.Sprintf("h%d-", idx),
-		W:         map[string]int{"begin": 10, "set": 30, "delete": 8, "create": 4, "setreader": 4, "commit": 9, "rollback": 5, "collect": 2, "drain": 1, "get": 2},
+		W:         map[string]int{"begin": 10, "set": 30, "delete": 8, "create": 4, "setreader": 4, "commit": 9, "rollback": 5, "collect": 2, "drain": 1, "get": 2, "latewrite": 3, "phantom": 1},
 	}
 	steps := seqrun.Generate(rng, p)
 	eo := dbx.Options{Mode: dbx.Inline, Dir: filepath.Join(scratch, "db"), Roots: 1 + idx%3, SendDuration: sendDur(idx), NumWorkers: 1 + idx%2}
@@ -686,8 +686,17 @@ func c14BigBatch(tier string, seed int64, idx int, scratch string) rt.CaseResult
 	for i := 0; i < n; i++ {
 		steps = append(steps, seqrun.Step{Op: "set", Actor: 0, Key: fmt.Sprintf("b%04d", i%(n/2+idx%3)), Tag: fmt.Sprintf("bb%d-%d", idx, i), Len: 5})
 	}
-	end := []string{"rollback", "commit", "reopen"}[idx%3]
+	end := []string{"rollback", "commit", "reopen", "overwrites-one-pass"}[idx%4]
 	switch end {
+	case "overwrites-one-pass":
+		// more than a thousand committed versions that are superseded by autocommit overwrites:
+		// ONE collector pass (and the drain of its deletions) must reclaim all of them
+		steps = steps[:0]
+		for round := 0; round < 90+idx%40; round++ {
+			for k := 0; k < 14; k++ {
+				steps = append(steps, seqrun.Step{Op: "set", Actor: -1, Key: fmt.Sprintf("ow%02d", k), Tag: fmt.Sprintf("bb%d-%d-%d", idx, round, k), Len: 5})
+			}
+		}
 	case "rollback", "commit":
 		steps = append(steps, seqrun.Step{Op: end, Actor: 0})
 	default:
@@ -715,7 +724,21 @@ func c14BigBatch(tier string, seed int64, idx int, scratch string) rt.CaseResult
 			return c
 		}
 	}
-	if !quiesce(&c, r.Env, replay) {
+	if end == "overwrites-one-pass" {
+		// exactly one pass: drain what is pending, collect once, drain its deletions
+		if err := r.Env.Drain(); err != nil {
+			c.Violate("drain-failed "+firstWords(err.Error(), 4), err.Error(), replay)
+			return c
+		}
+		if err := r.Env.Collect(); err != nil {
+			c.Violate("collector-error", err.Error(), replay)
+			return c
+		}
+		if err := r.Env.Drain(); err != nil {
+			c.Violate("drain-failed "+firstWords(err.Error(), 4), err.Error(), replay)
+			return c
+		}
+	} else if !quiesce(&c, r.Env, replay) {
 		return c
 	}
 	c.Evals++
@@ -852,6 +875,19 @@ func c17Regain(tier string, seed int64, idx int, scratch string) rt.CaseResult {
 		}
 		// a file from Create that stays open (nothing written yet) while the directories fill up
 		// and rotate; it is written and closed after the fill
+		// a transaction writes a few files before the fill; it is rolled back after it, with a
+		// context that is already cancelled (a request that has timed out): its files then sit in
+		// directories that have filled up and been replaced meanwhile, and giving those directories
+		// back must not depend on the caller's context
+		var pendingTx fs_db.Tx
+		if eo.Mode == dbx.Inline {
+			if tx, terr := r.Env.DB.Begin(ctxBg, fs_db.IsoLevelReadCommitted); terr == nil {
+				for i := 0; i < 15; i++ {
+					tx.Set(ctxBg, fmt.Sprintf("txk%d-%d", cycle, i), []byte("t"))
+				}
+				pendingTx = tx
+			}
+		}
 		filesBefore, _, _ := r.Env.Walk(false)
 		held, herr := r.Env.DB.Create(ctxBg, fmt.Sprintf("held%d", cycle))
 		if herr != nil {
@@ -920,6 +956,14 @@ func c17Regain(tier string, seed int64, idx int, scratch string) rt.CaseResult {
 		before, ok := counts()
 		if !ok {
 			return c
+		}
+		if pendingTx != nil {
+			dead, cancel := context.WithCancel(ctxBg)
+			cancel()
+			if err := pendingTx.Rollback(dead); err != nil {
+				// the call may refuse a dead context; then the transaction is ended properly
+				pendingTx.Rollback(ctxBg)
+			}
 		}
 		rng.Shuffle(len(live), func(i, j int) { live[i], live[j] = live[j], live[i] })
 		ndel := 12 + rng.Intn(20)
